@@ -10,7 +10,7 @@ TH15 = ['Smtb.File.readStaged_take', 'Smtb.File.read_strict_prefix_fails', "Smtb
         'Smtb.File.read_header_cut', 'Smtb.File.read_error_no_system', 'Smtb.File.read_strict_prefix_no_system',
         'Smtb.File.read_full_ok', 'Smtb.File.read_eq_readStaged', 'Smtb.File.Toy.h1', 'Smtb.File.Toy.h2']
 
-CONST = {'layout': 'ok', 'reload': 'ok', 'cross': 'ok', 'convert': 'ok', 'filecut': 'as-expected'}
+CONST = {'layout': 'ok', 'reload': 'ok', 'cross': 'ok', 'convert': 'ok', 'filecut': 'as-expected', 'writefault': 'ok'}
 
 
 def run(ctx, which):
